@@ -189,6 +189,7 @@ func allKinds(m material) []*kind {
 	ks = append(ks, &kind{
 		name:  "sm2.PrivateKey",
 		sites: []string{"sm2.inverseOfKeyPlus1"},
+		cold:  []string{"Decrypt", "DecryptASN1", "KeyExchange"},
 		must:  []string{"sm2.inverseOfKeyPlus1"},
 		fresh: func(int) (any, error) {
 			p, err := sm2.NewPrivateKey(m["sm2.d"])
@@ -295,6 +296,7 @@ func allKinds(m material) []*kind {
 	ks = append(ks, &kind{
 		name:  "ecdh.PrivateKey",
 		sites: []string{"ecdh.publicKey"},
+		cold:  []string{"ECDH"},
 		must:  []string{"ecdh.publicKey"},
 		fresh: func(int) (any, error) {
 			p, err := ecdh.P256().NewPrivateKey(m["sm2.eph.d"])
@@ -434,6 +436,8 @@ func allKinds(m material) []*kind {
 	ks = append(ks, &kind{
 		name:  "sm9.EncryptPrivateKey",
 		sites: sm9EncSites,
+		must:  sm9EncSites,
+		cold:  []string{"UnwrapKey", "Decrypt"},
 		fresh: func(int) (any, error) {
 			master, err := sm9.UnmarshalEncryptMasterPrivateKeyASN1(m["sm9.enc.master"])
 			if err != nil {
@@ -712,6 +716,7 @@ func allKinds(m material) []*kind {
 		name:       "singletons.sm2",
 		perProcess: true,
 		sites:      []string{"sm2ec.curve", "sm2.p256"},
+		cold:       []string{"ecdh.NewPrivateKey.ECDH"},
 		must:       []string{"sm2ec.curve", "sm2.p256"},
 		fresh:      func(int) (any, error) { return nil, nil },
 		ops: []opdef{
